@@ -587,9 +587,9 @@ class LibModel:
         per_kind: dict[str, dict[str, Any]] = {
             "FD": {"file_data": "sym", "offset": "sym", "segment_metadata": "sym"},
             "EOF": {"file_size": "sym", "file_checksum": "sym", "fault_location": "sym",
-                    "condition_code": (E("ConditionCode", "NO_ERROR"), E("ConditionCode", "$OTHER"))},
+                    "condition_code": tuple(E("ConditionCode", m) for m in ["NO_ERROR"] + sorted(self.prog.compared_members("ConditionCode") - {"NO_ERROR"})) + (E("ConditionCode", "$OTHER"),)},
             "METADATA": {"file_size": "sym",
-                         "checksum_type": (E("ChecksumType", "NULL_CHECKSUM"), E("ChecksumType", "$OTHER")),
+                         "checksum_type": tuple(E("ChecksumType", m) for m in ["NULL_CHECKSUM"] + sorted(self.prog.compared_members("ChecksumType") - {"NULL_CHECKSUM"})) + (E("ChecksumType", "$OTHER"),),
                          "closure_requested": (True, False),
                          "dest_file_name": (None, Sym(("a", "pkt.dest_file_name"))),
                          "source_file_name": (None, Sym(("a", "pkt.source_file_name"))),
